@@ -69,7 +69,10 @@ static void scriptTcp() {
   struct sockaddr_in sin; memset(&sin, 0, sizeof sin); sin.sin_family = AF_INET; sin.sin_port = 0; sin.sin_addr.s_addr = htonl(0x7f000001);
   CALL("bind", bind(ls, (struct sockaddr*)&sin, sizeof sin)); CALL("listen", listen(ls, 4)); socklen_t l = sizeof sin; getsockname(ls, (struct sockaddr*)&sin, &l);
   pthread_t th; pthread_create(&th, 0, tcpPeer, (void*)(intptr_t)ntohs(sin.sin_port));
-  int c = accept(ls, 0, 0); R("accepted", c >= 0); char b[16]; CALL("recv_hello", recv(c, b, 16, 0)); CALL("send_reply", send(c, b, 2, MSG_NOSIGNAL)); pthread_join(th, 0); CALL("recv_after_close", recv(c, b, 16, 0));
+  int c = accept(ls, 0, 0); R("accepted", c >= 0); char b[16]; CALL("recv_hello", recv(c, b, 16, 0)); CALL("send_reply", send(c, b, 2, MSG_NOSIGNAL)); pthread_join(th, 0);
+  { int ep = epoll_create1(0); struct epoll_event ev, out[2]; ev.events = EPOLLIN | EPOLLRDHUP | EPOLLHUP; ev.data.u64 = 1; epoll_ctl(ep, EPOLL_CTL_ADD, c, &ev); CALL("tcp_wait_peer_closed", epoll_wait(ep, out, 2, 0)); R("tcp_ev_peer_closed", out[0].events);
+    ev.events = EPOLLOUT | EPOLLRDHUP | EPOLLHUP; epoll_ctl(ep, EPOLL_CTL_MOD, c, &ev); CALL("tcp_wait_out_peer_closed", epoll_wait(ep, out, 2, 0)); R("tcp_ev_out_peer_closed", out[0].events); close(ep); }
+  CALL("recv_after_close", recv(c, b, 16, 0));
   int cl = socket(AF_INET, SOCK_STREAM, 0); close(ls); sin.sin_port = htons(1);   // nobody listens on port 1
   CALL("connect_refused", connect(cl, (struct sockaddr*)&sin, sizeof sin)); close(cl); close(c);
 }
